@@ -127,7 +127,9 @@ class LZSpec(Spec):
 
     def configs(self, tier):
         return [{"max_columns": None, "max_dict_size": 65536}, {"max_columns": None, "max_dict_size": 3},
-                {"max_columns": None, "max_dict_size": 65536, "base_dictionary": {"a": 1, "b": 1}}]
+                {"max_columns": None, "max_dict_size": 65536, "base_dictionary": {"a": 1, "b": 1}},
+                # a base dictionary that already fills the phrase dictionary: nothing can be added, only counts change
+                {"max_columns": None, "max_dict_size": 2, "base_dictionary": {"a": 1, "b": 1}}]
 
     def make(self, cfg):
         import vectorizers as V
